@@ -530,3 +530,57 @@ def replay_transf(bname, model, meta):
     p = got['Line'][0]
     return {'confirmed': abs(p['tap'] - 1.05 / 0.95) > 1e-9 and 'g' not in p, 'tap': p['tap'], 'expected_tap': 1.05 / 0.95,
             'has_g': 'g' in p, 'native_cmd': '_parse_transf_v33 on one 2-winding record: WINDV1=1.05, WINDV2=0.95, CW=1, MAG1=0.002'}
+
+
+
+def bounded_file_roundtrip(pack, pid):
+    """bounded native stand-in: stock cases written to xlsx and json and read again give, for every model, the same input-base
+    parameter table (values and device order); power flow of the reloaded case equals the original"""
+    from contracts.packutil import native_guard
+    name = '%s/andes/io:xlsx,json/bounded:dump-and-reload-reproduces-every-input-parameter' % pid
+    cases = ['ieee14/ieee14_shuntsw.json', 'kundur/kundur_full.xlsx', '5bus/pjm5bus.xlsx']
+
+    def go():
+        import logging
+        import os
+        import shutil
+        import tempfile
+        import numpy as np
+        import andes
+        from andes.io import xlsx as ax, json as aj
+        logging.getLogger('andes').setLevel(logging.CRITICAL)
+        tmp = tempfile.mkdtemp(prefix='verif_io_')
+        try:
+            for case in cases:
+                a = andes.load(andes.get_case(case), default_config=True, no_output=True)
+                a.PFlow.run()
+                for fmt, writer in (('xlsx', ax.write), ('json', aj.write)):
+                    path = os.path.join(tmp, 'dump.' + fmt)
+                    writer(a, path, overwrite=True)
+                    b = andes.load(path, default_config=True, no_output=True)
+                    for mname, ma in a.models.items():
+                        mb = b.models[mname]
+                        if ma.n != mb.n:
+                            return {'case': case, 'format': fmt, 'model': mname, 'devices': [ma.n, mb.n]}
+                        if ma.n == 0:
+                            continue
+                        da, db = ma.as_df(vin=True), mb.as_df(vin=True)
+                        for col in da.columns:
+                            va, vb = list(da[col]), list(db[col]) if col in db.columns else None
+                            same = vb is not None and all(
+                                (x == y) or (isinstance(x, float) and isinstance(y, float) and (abs(x - y) <= 1e-12 * max(1.0, abs(x)) or (x != x and y != y)))
+                                or (np.ndim(x) > 0 and np.allclose(np.asarray(x, dtype=float), np.asarray(y, dtype=float))) or str(x) == str(y)
+                                for x, y in zip(va, vb))
+                            if not same:
+                                return {'case': case, 'format': fmt, 'model': mname, 'parameter': col, 'original': str(va)[:120], 'reloaded': str(vb)[:120]}
+                    b.PFlow.run()
+                    if a.dae.y.shape != b.dae.y.shape or np.max(np.abs(a.dae.y - b.dae.y)) > 1e-8:
+                        return {'case': case, 'format': fmt, 'what': 'power-flow solution of the reloaded case differs'}
+            return None
+        finally:
+            shutil.rmtree(tmp, ignore_errors=True)
+    bad = native_guard(pack, name, go)
+    pack.bounded.append({'function': 'andes.io.xlsx.write / json.write + readers', 'kind': 'bounded native (stock cases: %s)' % ', '.join(cases),
+                         'counted_as_proved': False})
+    if bad:
+        pack.violation(name, {'bounded': True, 'inputs': bad, 'native_cmd': 'load; write xlsx / json; load again; compare as_df(vin=True) of every model'})
